@@ -180,5 +180,13 @@ theorem isAlign_stepOp (b : Bag) (op : Op) : (stepOp b op).1.isAlign = b.isAlign
       · rfl
       · rename_i r hr
         exact isAlign_replaceChar name site c b r hr
+  | rmGapSites num den ends =>
+    simp only [stepOp]
+    split
+    · rfl
+    · split
+      · rfl
+      · rename_i r hr
+        exact (removeGapSites_fields hr).2.2.2.1
 
 end Gv.Proofs.BagAbs
